@@ -85,6 +85,17 @@ class Prov:
         self._ptr_callers = None
 
     # ---- public ---------------------------------------------------------
+    def origins_of_call(self, f, call, pi=()):
+        """Origins of (the sub-part `pi` of) the value returned by one call."""
+        self.steps = 0
+        res = None
+        for _ in range(4):
+            self.cyclic = False
+            res = self._call_result(f, call, tuple(pi))
+            if not self.cyclic:
+                break
+        return res
+
     def origins(self, f, x, pi=()):
         """x: operand or place."""
         res = None
